@@ -7,6 +7,7 @@ can produce it: end of stream, as a half-close, so the device keeps reading and
 "no further frame is sent" is observed rather than assumed.
 """
 
+import asyncio
 from .. import env, gen, ops, tcpwork
 from ..fakes import memstream
 from ..fakes import tcp_device as td
@@ -109,9 +110,14 @@ class C09(Prop):
             for step in range(sh[5]):
                 n = len(valid_reply(sh, step))
                 for fault in [("eof",)] + [("prefix", k) for k in range(1, n)]:
-                    if i % nshards == shard:
-                        yield {"shape": sh[0], "step": step, "fault": list(fault), "enumerated": True}
-                    i += 1
+                    # end-of-stream cases also on a connection that sat idle / across a stepped wall clock
+                    for jump in ([None, 75, 7200, -900] if fault[0] == "eof" else [None]):
+                        if i % nshards == shard:
+                            c = {"shape": sh[0], "step": step, "fault": list(fault), "enumerated": True}
+                            if jump is not None:
+                                c["jump"] = jump
+                            yield c
+                        i += 1
         n_hist = {"quick": 1_600, "thorough": 120_000}[tier]
         for j in range(n_hist):
             if i % nshards == shard:
@@ -243,16 +249,38 @@ class C09(Prop):
         healthy = td.auto_responder(thermostat=REPORTED, family=family,
                                     schedule_records=[replies.schedule_record(0, 0x54, 1_700_000_000, 1_700_003_600)])
 
+        first = {"conn": None}
+        only_first = case.get("jump") is not None and case["jump"] % 2 == 0   # the fault belongs to this connection; the device itself is well
+
         def responder(conn, idx, frame):
-            return inj if idx == step else healthy(conn, idx, frame)
+            if first["conn"] is None:
+                first["conn"] = conn
+            if idx == step and (conn is first["conn"] or not only_first):
+                return inj
+            return healthy(conn, idx, frame)
 
         self.dev.responder = responder
-        cl = await self.rig.connect(self.dev, t, "a1b2c3", "18")
-        try:
-            rec = await cl.run(op, args, self.remotes.get(remote_kind))
-            await td.settle(cl.conn, sum(len(w) for w in rec.writes))
-        finally:
-            await cl.close()
+        conns_before = len(self.dev.conns)
+        from ..ref import clock
+
+        rj = env.rng("C09t", name, step, str(fault)[:40])
+        t0 = 1_785_000_000.0 + rj.randrange(10 ** 6)
+        with clock.virtual_time(t0) as traveller:
+            cl = await self.rig.connect(self.dev, t, "a1b2c3", "18")
+            try:
+                # the connection may have been idle for a while (or the host's clock was stepped) before the operation
+                jump = case["jump"] if case.get("jump") is not None else rj.choice([0, 0, 2, 61, 420, 7200, -3, -900])
+                if jump:
+                    traveller.shift(jump)
+                    acc.count("operations_after_a_clock_jump")
+                rec = await cl.run(op, args, self.remotes.get(remote_kind))
+                await td.settle(cl.conn, sum(len(w) for w in rec.writes))
+            finally:
+                await cl.close()
+        for _ in range(20):
+            await asyncio.sleep(0)
+        opened = self.dev.conns[conns_before:]
+        frames_received = sum(len(c.frames) for c in opened)
         acc.ev()
         acc.count(f"fault_{fault[0]}")
         acc.count(f"step_{step}")
@@ -289,9 +317,10 @@ class C09(Prop):
         if step == 0 and fault[0] == "eof" and (name in STATE_QUERIES or t == 2):
             if not (rec.outcome == "raise" and type(exc) is RuntimeError):
                 acc.violation(f"empty-login-not-runtimeerror:{name}", f"{tag}: outcome {rec.outcome} {type(exc).__name__ if exc else ''}", {"exc": repr(exc)})
-            if len(rec.writes) != 1 or len(cl.conn.frames) != 1:
-                acc.violation(f"frame-after-empty-login:{name}", f"{tag}: client wrote {len(rec.writes)} frames, device received {len(cl.conn.frames)}",
-                              {"kinds": [frames.classify(w) for w in rec.writes]})
+            if len(rec.writes) != 1 or len(cl.conn.frames) != 1 or frames_received != 1:
+                acc.violation(f"frame-after-empty-login:{name}", f"{tag}: client wrote {len(rec.writes)} frames on its connection, the device received "
+                              f"{frames_received} frames on {len(opened)} connection(s) (wall clock moved by {jump} s between connect and the operation)",
+                              {"kinds": [frames.classify(w) for w in rec.writes], "jump": jump})
             acc.count("empty_login_cases")
         if case.get("enumerated") and fault[0] == "eof" and len(acc.samples) < 4:
             acc.sample({"shape": name, "step": step, "fault": fault, "outcome": rec.outcome,
